@@ -51,7 +51,8 @@ def event_job(job):
         g, cfg = make_geom(spec)
         c = region_of(g, cfg)
         u = special_u(rng, job["n"])
-        g.throw(u.copy())
+        ubuf = u.copy()                 # ONE argument array for both throws of this object (refilled in between)
+        g.throw(ubuf)
         ser = job["seed"] * 100 + si
         dlat, dlon = cfg.detector.initial_position.latitude, cfg.detector.initial_position.longitude
         for i in range(u.shape[1]):
@@ -75,7 +76,8 @@ def event_job(job):
         # the same object thrown again with other numbers that keep the SAME number of trajectories (a permutation of the batch):
         # positions must belong to the new trajectories
         perm = rng.permutation(u.shape[1])
-        g.throw(u[:, perm].copy())
+        ubuf[...] = u[:, perm]
+        g.throw(ubuf)
         m2 = np.asarray(g.event_mask)
         if int(m2.sum()):
             beta2, lat2, lon2 = g.beta_rad(), g.latS[m2], g.longS[m2]
